@@ -9,6 +9,9 @@ CONSTANTS
   MaxLose = 1
   QuorumDelta = 0
   CheckConfirm = TRUE
+  HoldBack = {}
+  PinSeq = TRUE
+  TxStream <- StreamDef
 CONSTRAINT Bound
 INVARIANTS Emit CntShape OneConfirmedPerSeq ConfirmedPrefixAgree AckedOnQuorum QuorumCountMeansQuorumHeld
 PROPERTY AckedStable
